@@ -195,11 +195,12 @@ func (h *Hook) OnDisconnect(cl *mqtt.Client, _ error, expire bool) {
 		return
 	}
 
-	if !expire {
+	if cl.StopCause() == packets.ErrSessionTakenOver {
 		return
 	}
 
-	if cl.StopCause() == packets.ErrSessionTakenOver {
+	if !expire {
+		h.updateClient(cl) // like the badger and pebble hooks: refresh the record of a session that is kept
 		return
 	}
 
